@@ -147,3 +147,93 @@ func vh_C22_protocol_converges() {
 	vCover(len(local) < nkeys, "key-removed-during-subscribe")
 	vCover(pageSize == 1, "one-key-pages")
 }
+
+// C22 (c): recovery join with a tags filter. A client holding the state of a
+// saved position comes back with Phase=LIVE, Recover=true after `backlog`
+// further publications, each tagged team=eng or team=sales; its filter admits
+// team=eng; the catch-up limit is 2. The server either refuses explicitly
+// (unrecoverable position) or says recovered - and then the reply carries
+// every admitted publication after the saved position, in order, and nothing
+// else, and the reported position is the stream top.
+func vh_C22_recovery_join_filtered() {
+	limit := 2
+	n := vNewNode(Config{Map: MapConfig{GetMapChannelOptions: func(string) MapChannelOptions {
+		return MapChannelOptions{Mode: MapModeRecoverable, KeyTTL: 3600_000_000_000, MinPageSize: 1, StreamSize: 100, LiveTransitionMaxPublicationLimit: limit}
+	}}})
+	serverFilter := vChoice("server_side_filter", 2) == 1
+	flt := &protocol.FilterNode{Cmp: "eq", Key: "team", Val: "eng"}
+	vStub("github.com/centrifugal/centrifuge/internal/filter.Hash", func(f *protocol.FilterNode) [32]byte { return [32]byte{1} })
+	n.OnConnect(func(c *Client) {
+		c.OnSubscribe(func(e SubscribeEvent, cb SubscribeCallback) {
+			opts := SubscribeOptions{Type: SubscriptionTypeMap, AllowTagsFilter: true}
+			if serverFilter {
+				opts.ServerTagsFilter = flt
+			}
+			cb(SubscribeReply{Options: opts}, nil)
+		})
+	})
+	ctx := context.Background()
+	const ch = "m"
+	b := n.mapBroker
+	eng := map[string]string{"team": "eng"}
+	sales := map[string]string{"team": "sales"}
+	res, err := b.Publish(ctx, ch, "seed", MapPublishOptions{Data: []byte{1}, Tags: eng})
+	vAssert(err == nil, "setup publish")
+	saved := res.Position
+	backlog := 1 + vChoice("backlog", vParam("c22c_backlog", 5))
+	var admitted []uint64 // offsets of the admitted publications after the saved position
+	for i := 0; i < backlog; i++ {
+		tags := sales
+		if vChoice("admitted", 2) == 1 {
+			tags = eng
+		}
+		r, err := b.Publish(ctx, ch, string([]byte{'k', byte('0' + i)}), MapPublishOptions{Data: []byte{byte(10 + i)}, Tags: tags})
+		vAssert(err == nil && !r.Suppressed, "backlog publish")
+		if tags["team"] == "eng" {
+			admitted = append(admitted, r.Position.Offset)
+		}
+	}
+	tr := vNewTransport()
+	c := vNewClient(n, "u", tr)
+	vAssert(vConnect(c), "connect")
+	vSettle()
+	base := len(tr.frames)
+	req := &protocol.SubscribeRequest{Channel: ch, Type: int32(SubscriptionTypeMap), Phase: MapPhaseLive, Offset: saved.Offset, Epoch: saved.Epoch, Recover: true}
+	if !serverFilter {
+		req.Tf = flt
+	}
+	c.HandleCommand(&protocol.Command{Id: 7, Subscribe: req}, 0)
+	vSettle()
+	var reply *protocol.Reply
+	for k := base; k < len(tr.frames); k++ {
+		if r, _ := vDecoded(tr.frames[k]).(*protocol.Reply); r != nil && r.Id == 7 {
+			reply = r
+		}
+	}
+	if reply == nil {
+		vFail("no reply to the recovery join")
+		return
+	}
+	if reply.Error != nil {
+		vAssert(reply.Error.Code == ErrorUnrecoverablePosition.Code, "refusal-is-explicit")
+		vCover(true, "refused")
+		vCover(len(admitted) <= limit, "refused-although-few-admitted")
+		return
+	}
+	r := reply.Subscribe
+	vAssert(r != nil && r.Phase == MapPhaseLive, "live")
+	if !r.Recovered {
+		vCover(true, "not-recovered")
+		return
+	}
+	top := saved.Offset + uint64(backlog)
+	vAssert(r.Offset == top, "recovered: position is the stream top")
+	vAssert(len(r.Publications) == len(admitted), "recovered: every admitted publication after the saved position, and only those")
+	for k, p := range r.Publications {
+		if k < len(admitted) {
+			vAssert(p.Offset == admitted[k], "recovered: admitted publications in stream order")
+		}
+	}
+	vCover(backlog > limit+1, "backlog-beyond-limit-recovered")
+	vCover(len(admitted) > 0, "recovered-with-publications")
+}
